@@ -3,6 +3,7 @@
 package interp
 
 import (
+	"path/filepath"
 	"fmt"
 	"go/token"
 	"go/types"
@@ -850,9 +851,46 @@ func init() {
 		p.env.effects = append(p.env.effects, effect{kind: "fs", path: path, remove: true})
 		return iface{}
 	})
+	// A Badger directory shows up in the file model as the files Badger keeps there (names only);
+	// removing its MANIFEST, a table or a value log file loses the database's content.
+	E("path/filepath.Glob", func(fr *frame, args []value) value {
+		p := fr.i.path
+		pattern := concStr(args[0], "filepath.Glob")
+		dir := filepath.Dir(pattern)
+		var names []string
+		for f := range p.env.files {
+			if filepath.Dir(f) == dir {
+				names = append(names, f)
+			}
+		}
+		if d, ok := p.env.disks[dir]; ok && (d.open || len(d.ents) > 0 || d.version > 0) {
+			for _, n := range kvPseudoFiles(d) {
+				names = append(names, dir+"/"+n)
+			}
+		}
+		sort.Strings(names)
+		out := []value{}
+		for _, n := range names {
+			if ok, err := filepath.Match(pattern, n); err == nil && ok {
+				out = append(out, n)
+			}
+		}
+		return tuple{out, iface{}}
+	})
 	E("os.Remove", func(fr *frame, args []value) value {
 		p := fr.i.path
 		path := concStr(args[0], "Remove")
+		if d, ok := p.env.disks[filepath.Dir(path)]; ok {
+			for _, n := range kvPseudoFiles(d) {
+				if n == filepath.Base(path) {
+					if n != "LOCK" && n != "KEYREGISTRY" && n != "DISCARD" {
+						d.ents = nil // the database's content is gone
+					}
+					p.env.effects = append(p.env.effects, effect{kind: "fs", path: path, remove: true})
+					return iface{}
+				}
+			}
+		}
 		if _, ok := p.env.files[path]; !ok {
 			return fsNotExist(path, "remove")
 		}
@@ -1027,6 +1065,19 @@ func init() {
 		}
 		return filepathJoin(parts)
 	})
+}
+
+// kvPseudoFiles: the file names a Badger directory holds, as far as code that
+// manages the directory by file name can tell.
+func kvPseudoFiles(d *kvDisk) []string {
+	out := []string{"000001.vlog", "DISCARD", "KEYREGISTRY", "MANIFEST"}
+	if len(d.ents) > 0 {
+		out = append(out, "000001.sst", "00001.mem")
+	}
+	if d.open {
+		out = append(out, "LOCK")
+	}
+	return out
 }
 
 type fileInfoModel struct {
